@@ -113,6 +113,11 @@ func (s *S) At(i int) int {
 	return t.at
 }
 
+// stepTimeout: how long Step waits for a released goroutine to park again. Only a goroutine that
+// blocked on something other than a yield (a deadlock introduced by a code change) ever runs into
+// it; it is generous so that a loaded machine cannot produce a spurious -2.
+var stepTimeout = 60 * time.Second
+
 func (s *S) IsDone(i int) bool { return s.threads[i].done }
 
 // Panic returns the recovered panic value of a finished thread, if any.
@@ -134,7 +139,7 @@ func (s *S) Step(i int) int {
 		}
 		t.at = id
 		return id
-	case <-time.After(10 * time.Second):
+	case <-time.After(stepTimeout):
 		return -2
 	}
 }
